@@ -284,6 +284,8 @@ class Gen:
             t = r.choice((35, 35, 34, 37, 39, 41, 40, 42, 43, 32, 33, 0, 1, 31, 255, 200))
             item = bytes(r.getrandbits(8) for _ in range(r.choice((0, 1, 2, 4)))).hex() or "-"
             return "embedarr %d %s %d %d" % (t, item, r.choice((0, 1, 2, 3, 7)), r.choice((0, 1, 1, 2, 3)))
+        if k < 0.77:
+            return "cpool %d %d %d" % (self.label_id(0.8), r.choice((1, 2, 4, 8, 8, 16, 32)), r.choice((0, 1, 2, 3)))
         if k < 0.82:
             return "elabel %d %d" % (self.label_id(0.7), r.choice((0, 4, 8, 1, 2, 3, 16, 5)))
         if k < 0.87:
@@ -334,7 +336,7 @@ def probe_corpus(h, rng, tier, forms_by_arch):
 
 
 def gen_sessions(rng, tier, forms_by_arch, corpus=None):
-    n = 700 if tier == "quick" else 9000
+    n = 700 if tier == "quick" else 20000
     sessions = []
     for k in range(n):
         arch = rng.choice(("x64", "x64", "x86", "a64", "a64"))
@@ -433,6 +435,11 @@ def monitor_line(sess_hdr, op, d):
 def model_line(sess_hdr, op, d):
     """the op as the model driver reads it: the encoder's outcome of an `emit` is taken from the implementation"""
     w = op.split()
+    if w[0] == "cpool":
+        # the pool the harness builds: `count` distinct constants of one size, laid out in insertion order; alignment = the item size
+        isz, cnt = int(w[2]), min(int(w[3]), 16)
+        data = bytes((0xA0 + i + k) & 0xFF for i in range(cnt) for k in range(isz))
+        return "cpool %s %d %s" % (w[1], isz if cnt else 0, data.hex() or "-")
     if w[0] != "emit":
         return op
     refs = label_refs(w, sess_hdr[1] == "a64")
@@ -481,19 +488,56 @@ def run_session_lines(h, lines):
     return vlib.run_lines([str(h)], lines, timeout=3000)
 
 
+MAX_ABORTS = 8
+
+
+def run_harness(h, sessions):
+    """the sessions go through the harness in chunks; a session in which the real code aborts (sanitizer report, crash, no return) is
+    recorded and dropped and the run continues with the sessions after it, so that one run can exhibit several distinct aborts.
+    Returns ({session index: answers}, [(session index, op index, stderr tail)])."""
+    answers, aborts = {}, []
+    pending = list(range(len(sessions)))
+    CH = 400
+    while pending and len(aborts) < MAX_ABORTS:
+        chunk, pending = pending[:CH], pending[CH:]
+        while chunk and len(aborts) < MAX_ABORTS:
+            flat = [op for si in chunk for op in sessions[si]]
+            out, rc, err = run_session_lines(h, flat)
+            if rc == 0 and len(out) == len(flat):
+                k = 0
+                for si in chunk:
+                    answers[si] = out[k:k + len(sessions[si])]
+                    k += len(sessions[si])
+                break
+            out, rc, err = vlib.run_lines([str(h)], flat, timeout=3000, env={"VH_FLUSH": "1"})
+            at = min(len(out), len(flat) - 1)
+            k = 0
+            for pos, si in enumerate(chunk):
+                n = len(sessions[si])
+                if at < k + n:
+                    aborts.append((si, at - k, err[-3000:]))
+                    chunk = chunk[pos + 1:]
+                    break
+                answers[si] = out[k:k + n]
+                k += n
+            else:
+                chunk = []
+    return answers, aborts
+
+
 def judge(h, sessions, names):
     """runs harness, monitor and model over the sessions.  Returns dict(aborts, bad, diffs, stats)."""
-    flat, owner = [], []
+    answers, aborts = run_harness(h, sessions)
+    flat, owner, impl = [], [], []
     for si, s in enumerate(sessions):
+        if si not in answers:
+            continue
         for oi, op in enumerate(s):
             flat.append(op)
             owner.append((si, oi))
-    impl, rc, err = run_session_lines(h, flat)
-    res = {"abort": None, "bad": [], "diffs": [], "impl": impl, "flat": flat, "owner": owner, "protocol": None}
-    if rc != 0 or len(impl) != len(flat):
-        i, tail = vlib.locate_abort([str(h)], flat, timeout=3000)
-        res["abort"] = (i, tail)
-        return res
+        impl += answers[si]
+    res = {"abort": aborts[0] if aborts else None, "aborts": aborts, "bad": [], "diffs": [], "impl": impl, "flat": flat, "owner": owner,
+           "protocol": None, "mon_n": 0, "mod_n": 0, "tainted": 0}
     mon_lines, mon_idx, mod_lines, mod_idx, mod_exp, mod_unk = [], [], [], [], [], []
     tainted = set()
     hdr = None
@@ -562,7 +606,10 @@ def judge(h, sessions, names):
 def bad_key(names, sess_hdr, op, d, verdict):
     w = op.split()
     clause = verdict.split()[1] if verdict.startswith("BAD ") else verdict
-    return "%s:%s:%s" % (clause, w[0], errname(names, d["ret"]))
+    opname = w[0]
+    if opname == "cpool" and clause == "atomic" and errname(names, d["ret"]) == "InvalidDisplacement":
+        opname = "bind"      # the bind() inside embed_const_pool: the class of finding C14-K1
+    return "%s:%s:%s" % (clause, opname, errname(names, d["ret"]))
 
 
 def shrink_session(h, names, session, upto, want_clause):
@@ -587,7 +634,7 @@ def run(res):
         "the encoder's accept/reject decision and its bytes are a parameter of the model (judged by C01/C02/C13); the harness feeds the real outcome",
         "allocation never fails (C15)",
         "snapshot = content digest of sections, labels (bound position or fixup chain), global fixups, relocations, address table, nodes",
-        "set_offset, embed_const_pool, comment and logging are not exercised",
+        "set_offset, comment and logging are not exercised",
         "'without undefined behaviour' = no ASan/UBSan report on the explored calls (tested, not proved)"]
     broken = []
     R = vlib.REPO
@@ -641,31 +688,36 @@ def run(res):
         ["new a64 asm rec 0", "emit %d 0 - 0 v11.0.3.-1 v11.1.3.-1 v11.40.3.-1" % add3, "emit %d 0 - 0 r6.1 r6.40" % cmp2],
         ["new a64 asm thr 0", "embed 01", "align 0 8", "align 1 8"],
         ["new a64 bld rec 0", "label", "bind 5", "bind 0", "bind 0"],
+        ["new x64 asm rec 1", "label", "label", "embed 01", "bind 0", "cpool 0 8 2", "cpool 7 8 2", "cpool 1 8 2", "cpool 1 4 1"],
+        ["new a64 bld thr 0", "label", "label", "embed 01", "bind 0", "cpool 0 8 2", "cpool 1 8 2"],
         ["new x64 bld thr 1", "label", "bind 0", "bind 0", "bind 9"],
     ]
     sessions = targeted + sessions
     r = judge(h, sessions, names)
     flat, owner, impl = r["flat"], r["owner"], r["impl"]
 
-    if r["abort"]:
-        i, tail = r["abort"]
-        si, oi = owner[min(i, len(owner) - 1)]
-        first = [l for l in tail.splitlines() if "runtime error" in l or "ERROR: AddressSanitizer" in l or "SUMMARY" in l][:2]
+    seen_abort = set()
+    for si, oi, tail in r["aborts"]:
+        first = [l.strip() for l in tail.splitlines() if "runtime error" in l or "ERROR: AddressSanitizer" in l or "SUMMARY" in l][:2]
+        loc = re.search(r"([\w./-]+\.(?:cpp|h)):(\d+)", first[0]) if first else None
+        where = "%s:%s" % (loc.group(1).split("/")[-1], loc.group(2)) if loc else "?"
         ops = sessions[si][:oi + 1]
+        w = ops[-1].split()
+        key = "abort:%s:%s:%s" % (ops[0].split()[1], w[0], where)
+        if key in seen_abort:
+            continue
+        seen_abort.add(key)
 
         def crashes(cand):
             rr = judge(h, [[ops[0]] + cand + [ops[-1]]], names)
             return rr["abort"] is not None
 
         if len(ops) > 2 and crashes(ops[1:-1]):
-            ops = [ops[0]] + vlib.ddmin(ops[1:-1], crashes, max_tests=80) + [ops[-1]]
-        w = ops[-1].split()
-        res.violation("real code aborts under ASan/UBSan (or does not return) in session %r at call %r: %s" % (ops[0], ops[-1], " | ".join(first) or tail[-300:]),
-                      {"ops": ops, "stderr": tail[-2500:]}, found_input=True, key="abort:%s:%s" % (ops[0].split()[1], w[0]))
-        # the rest of the evidence cannot be gathered in this run
-        if broken:
-            res.violation("proof obligation no longer checks: " + " | ".join(broken)[:1500], {"unchecked": broken}, False, key="obligation")
-        return
+            ops = [ops[0]] + vlib.ddmin(ops[1:-1], crashes, max_tests=60) + [ops[-1]]
+        res.violation("real code aborts under ASan/UBSan (or does not return) in session %r at call %r: %s" % (ops[0], ops[-1], " | ".join(first)[:400] or tail[-300:]),
+                      {"ops": ops, "stderr": tail[-2500:]}, found_input=True, key=key)
+    if r["aborts"]:
+        res.notes.append("%d sessions aborted and were dropped; the rest of the run was judged" % len(r["aborts"]))
     if r["protocol"]:
         res.violation(r["protocol"], {}, found_input=False, key="protocol")
         return
@@ -702,7 +754,7 @@ def run(res):
     res.coverage["monitored_answers"] = r["mon_n"]
     res.coverage["sessions_cut_at_defect_18_C03"] = r["tainted"]
     res.coverage["traces_validated_against_impl"] = r["mod_n"]
-    idxs = [i for i in (5, len(flat) // 3, len(flat) // 2, len(flat) - 2) if flat[i].split()[0] != "new"]
+    idxs = [i for i in (5, len(flat) // 3, len(flat) // 2, len(flat) - 2) if 0 <= i < len(flat) and flat[i].split()[0] != "new"]
     res.add_samples([{"op": flat[i], "impl": impl[i][:300]} for i in idxs])
 
     # ---- classify ----
